@@ -30,42 +30,42 @@ func envInt(name string, def int64) int64 {
 }
 
 type workerSummary struct {
-	Type        string             `json:"type"`
-	Prop        string             `json:"prop"`
-	Seed        uint64             `json:"seed"`
-	RunStart    uint64             `json:"run_start"`
-	Runs        int                `json:"runs"`
-	Steps       int64              `json:"steps"`
-	Tasks       int64              `json:"tasks"`
-	SimTimeNs   int64              `json:"sim_time_ns"`
-	WallS       float64            `json:"wall_s"`
-	Stats       map[string]int     `json:"stats"`
-	Yields      map[string]int     `json:"yields"`
-	ByScenario  map[string]int     `json:"by_scenario"`
-	SchedFPs    []string           `json:"sched_fps"`
-	NonTrivFPs  []string           `json:"nontrivial_fps"`
-	States      []uint64           `json:"states"`
-	Samples     []interface{}      `json:"samples"`
-	Digests     map[string]string  `json:"digests,omitempty"`
-	KnownHits   map[string]int     `json:"known_hits"`
-	Race        bool               `json:"race_binary"`
-	Infra       []string           `json:"infra,omitempty"`
-	Violations  []violationLine    `json:"violations,omitempty"`
+	Type       string            `json:"type"`
+	Prop       string            `json:"prop"`
+	Seed       uint64            `json:"seed"`
+	RunStart   uint64            `json:"run_start"`
+	Runs       int               `json:"runs"`
+	Steps      int64             `json:"steps"`
+	Tasks      int64             `json:"tasks"`
+	SimTimeNs  int64             `json:"sim_time_ns"`
+	WallS      float64           `json:"wall_s"`
+	Stats      map[string]int    `json:"stats"`
+	Yields     map[string]int    `json:"yields"`
+	ByScenario map[string]int    `json:"by_scenario"`
+	SchedFPs   []string          `json:"sched_fps"`
+	NonTrivFPs []string          `json:"nontrivial_fps"`
+	States     []uint64          `json:"states"`
+	Samples    []interface{}     `json:"samples"`
+	Digests    map[string]string `json:"digests,omitempty"`
+	KnownHits  map[string]int    `json:"known_hits"`
+	Race       bool              `json:"race_binary"`
+	Infra      []string          `json:"infra,omitempty"`
+	Violations []violationLine   `json:"violations,omitempty"`
 }
 
 type violationLine struct {
-	Type    string    `json:"type"`
-	Prop    string    `json:"prop"`
-	Sig     string    `json:"sig"`
-	Rule    string    `json:"rule"`
-	Msg     string    `json:"msg"`
-	Replay  string    `json:"replay"`
-	Seed    uint64    `json:"seed"`
-	Run     uint64    `json:"run"`
-	Scenario string   `json:"scenario"`
-	Reproduced bool   `json:"reproduced_in_process"`
-	ShrinkTries int   `json:"shrink_tries"`
-	TapeLen int       `json:"tape_len"`
+	Type        string `json:"type"`
+	Prop        string `json:"prop"`
+	Sig         string `json:"sig"`
+	Rule        string `json:"rule"`
+	Msg         string `json:"msg"`
+	Replay      string `json:"replay"`
+	Seed        uint64 `json:"seed"`
+	Run         uint64 `json:"run"`
+	Scenario    string `json:"scenario"`
+	Reproduced  bool   `json:"reproduced_in_process"`
+	ShrinkTries int    `json:"shrink_tries"`
+	TapeLen     int    `json:"tape_len"`
 }
 
 var raceLogOffset int64
